@@ -147,6 +147,20 @@ fn execute_with(case: &(usize, usize, usize), cookie: &str, peer_cookie: &str, c
         } else if r.is_ok() || connected {
             res.violations.push(("connected state reached although the peer deviated from the handshake".into(), detail(format!("connect ok={} state={}", r.is_ok(), conn.state()))));
         }
+        // a second connect() on an established connection is refused and leaves the authenticated session in place:
+        // what is sent afterwards reaches the peer that proved the cookie
+        if conforming && connected && r.is_ok() {
+            let before = peer.log.len();
+            let again = tokio::time::timeout(Duration::from_secs(30), conn.connect()).await;
+            let refused = matches!(again, Ok(Err(_)));
+            let a = erltf::types::ExternalPid::new(erltf::types::Atom::new("me@127.0.0.1"), 1, 0, 42);
+            let b = erltf::types::ExternalPid::new(erltf::types::Atom::new(PEER_NAME), 2, 0, PEER_CREATION);
+            let sent = conn.link(&a, &b).await.is_ok();
+            for _ in 0..2000 { w.yield_once().await; peer.pump(); if peer.log.len() > before { break; } }
+            if !refused || !conn.is_connected() || !sent || peer.log.len() == before {
+                res.violations.push(("a second connect() on an established connection disturbs the authenticated session".into(), detail(format!("second connect refused={} still connected={} later operation ok={} bytes reached the authenticated peer={}", refused, conn.is_connected(), sent, peer.log.len() - before))));
+            }
+        }
         // the cookie executions judge the first handshake only (the second one below uses the harness's standard cookie)
         if cookie != COOKIE || peer_cookie != COOKIE { res.outcome = format!("cookie case connected={}", connected); return res; }
         // reuse after close(): a second handshake with a conforming peer succeeds
